@@ -64,12 +64,21 @@ func runC15FreeW(c *Ctx, runs, rounds int) error {
 		var stop int32
 		var otherWrites, otherErrs int64
 		var og sync.WaitGroup
+		var pause [3]time.Duration
 		for g := 0; g < 3; g++ {
 			og.Add(1)
 			go func(g int) {
 				defer og.Done()
 				defer func() { _ = recover() }()
 				for i := 0; atomic.LoadInt32(&stop) == 0; i++ {
+					// the other writers must not STARVE the header writer (SQLite's busy handler polls, it does not queue:
+					// writers that re-take the lock within microseconds can keep a waiting connection out for its whole
+					// 5 s timeout on a loaded machine - an artefact of this rig, not of the service): after every write
+					// each of them stays away three times as long as the write took, so the lock is free most of the time
+					if i > 0 {
+						time.Sleep(pause[g])
+					}
+					t0 := time.Now()
 					if g < 2 {
 						t, err := s.Services.Tokens.GenerateToken()
 						if err != nil || t == nil {
@@ -96,6 +105,14 @@ func runC15FreeW(c *Ctx, runs, rounds int) error {
 						}
 					} else {
 						return
+					}
+					if d := 3 * time.Since(t0); d > 200*time.Microsecond {
+						pause[g] = d
+					} else {
+						pause[g] = 200 * time.Microsecond
+					}
+					if pause[g] > 50*time.Millisecond {
+						pause[g] = 50 * time.Millisecond
 					}
 				}
 			}(g)
